@@ -78,6 +78,7 @@ TAGS = {
     "iter.end": {"C14", "C13"},
     "iter.drop": {"C14", "C13"},
     "stop.pool": {"C04", "C15", "C13", "C11"},
+    "stop.drain": {"C04", "C15", "C13", "C11"},
     "chfwd.begin": {"C10", "C09", "C03"},
     "stop.join": {"C04", "C15", "C13", "C11"},
 }
